@@ -71,6 +71,7 @@ def step (st : St) : List String → St × String
     ({ st with zip := r.2 }, optHex r.1)
   | ["z.get", k] => (st, optHex (ZipTree.get (hexOr k) st.zip))
   | ["z.asc", p] => (st, showKV (ZipTree.ascendPrefix st.zip (hexOr p)))
+  | ["z.ascn", p, n] => (st, showKV (ZipTree.ascendPrefixN st.zip (hexOr p) (natOr n)))
   | ["z.reput", k, v] =>
     let r := ZipTree.reput (hexOr k) (hexOr v) st.zip
     ({ st with zip := r.2 }, optHex r.1)
@@ -136,6 +137,10 @@ def step (st : St) : List String → St × String
   | ["s.added", r, d, vs] => (putSet st d (OSet.add (getSet st r) (nats vs)), "ok")
   | ["s.without", r, d, vs] => (putSet st d (OSet.without (getSet st r) (nats vs)), "ok")
   | ["s.diff", a, b, d] => (putSet st d (OSet.diff (getSet st a) (getSet st b)), "ok")
+  | ["s.nil"] => (st, "ok")          -- spec: a nil set has size 0 and iterates nothing
+  | ["s.of", d, vs] => (putSet st d (OSet.add {} (nats vs)), "ok")
+  | ["s.str", r] => (st, "[" ++ joinWith " " ((getSet st r).l.map toString) ++ "]")
+  | ["s.isolated", _, _] => (st, "ok")   -- spec: Added / Without / Diff return sets that share nothing with their source
   | ["s.has", r, v] => (st, toString (OSet.has (getSet st r) (natOr v)))
   | ["s.size", r] => (st, toString (OSet.size (getSet st r)))
   | ["s.slice", r] => (st, showNats (getSet st r).l)
@@ -148,10 +153,22 @@ def step (st : St) : List String → St × String
   | ["m.all"] =>
     let r := SortedMap.all st.smap
     ({ st with smap := r.2 }, if r.1.isEmpty then "list" else "list " ++ joinWith "," (r.1.map fun e => s!"{e.1}={e.2}"))
+  | ["m.alln", n] =>
+    -- `All()` sorts before it returns the iterator; a consumer that stops early sees a prefix
+    let r := SortedMap.all st.smap
+    let l := r.1.take (natOr n)
+    ({ st with smap := r.2 }, if l.isEmpty then "list" else "list " ++ joinWith "," (l.map fun e => s!"{e.1}={e.2}"))
+  | ["m.valsiso"] => (st, "ok")     -- spec: `Values()` is a fresh slice (the model's results are values)
   | ["m.del", k] => let r := SortedMap.delete st.smap (natOr k); ({ st with smap := r.2 }, toString r.1)
   | ["m.size"] => (st, toString (SortedMap.size st.smap))
   -- merges
   | ["mg.kv", runs] => (st, showEntries (Merge.merge entryCmp (pickOf "newest") (parseRuns runs)))
+  | ["mg.kvn", n, runs] => (st, showEntries (Merge.mergeN entryCmp (pickOf "newest") (parseRuns runs) (natOr n)))
+  | ["mg.genn", mode, n, runs] => (st, showEntries (Merge.mergeN entryCmp (pickOf mode) (parseRuns runs) (natOr n)))
+  | ["ms.mergen", n, runs] =>
+    let l := Merge.mergeSortedN entryCmp (parseRuns runs) (natOr n)
+    (st, if l.isEmpty then "keys" else "keys " ++ joinWith "," (l.map fun e => toHex e.key))
+  | ["mg.pickthm", _, _] => (st, "ok")      -- spec: C19.merge_any_pick
   | ["mg.thm", _] => (st, "ok")              -- spec: C19.mergeEntries_newest_wins
   | ["su.tblthm", _, _] => (st, "ok")        -- spec: C19.searchTables_correct
   | ["mg.gen", mode, runs] => (st, showEntries (Merge.merge entryCmp (pickOf mode) (parseRuns runs)))
